@@ -1,9 +1,10 @@
-import MahfModel.Model.PopMachineWire
+import MahfModel.Model.PopMachineWireC07
 open MahfModel MahfModel.PopMachine.Wire
 
 def c07 (input implOut : Sexp) : Option Verdict :=
   match input with
-  | .list (.atom "bestarch" :: _) => C07.comp input implOut
+  | .list (.atom "bestarch" :: _) => C07X.comp input implOut
+  | .list (.atom "scoped" :: _) => C07X.scopedCase input implOut
   | .list (.atom "run" :: _) => C07.run input implOut
   | _ => none
 
